@@ -8,7 +8,7 @@
    Proved for EVERY schedule of the system model: clause 803 (C08_holds_partial).  Clause 804 is REFUTED on the
    faithful model and on the code (DESIGN D18, known finding): C08_804_refuted.  The other clauses are decided
    on the schedules the correspondence check explores (evaluated on what the implementation showed). *)
-From RV Require Import Mon MonC07 MonC08 SysInv PC08.
+From RV Require Import Mon MonC07 MonC08 SysInv PC08 PC08sel.
 
 Theorem C08_holds_partial : forall cfg sch, sch_wf sch -> C08p_mon (events cfg sch) = [].
 Proof. exact C08p_trace. Qed.
@@ -71,3 +71,21 @@ Definition bad_trace : list (directive * list obs) :=
     (DExec [], [OExec [] (Some []) (mkDb [prow 2] [] [] [] [trow 4] 0 0 0)]) ].
 Example C08_monitor_detects : C08p_mon bad_trace = [(803, 1%nat)] /\ C08_mon bad_trace = [(803, 1%nat)].
 Proof. vm_compute. split; reflexivity. Qed.
+
+(* clause 805 at store level, for ARBITRARY databases and batches (Proofs/PC08sel.v): whatever a dispatch cycle selects
+   - whichever legal choice the SQL engine makes among the tasks of one root (the hint) - is legal: only unclaimed
+   (init) tasks, at most [limit], at most one per root promise, none whose root has a task recorded enqueued or
+   claimed; and this holds for every cycle of a batch (judged against the state before the batch for as long as no
+   earlier transaction of the batch wrote tasks - exactly what the monitor evaluates).  The limits must not be
+   negative (SQL reads a negative LIMIT as "no limit"): the coroutine asks for the configured task batch size; that
+   it does so in every schedule is the part of 805 that stays evaluated. *)
+Theorem C08_selection_legal : forall d lim hint d' r,
+    (0 <= lim)%Z -> exec d (ReadEnqueueableTasks lim) hint = Some (d', r) ->
+    d' = d /\ exists n recs, r = RTasks n recs /\ c08_select d true lim recs = [].
+Proof. exact selection_spec. Qed.
+Print Assumptions C08_selection_legal.
+
+Theorem C08_batch_selections_legal : forall txns d rss d',
+    limits_ok (map fst txns) -> exec_batch d txns = Some (d', rss) -> c08_selects d true (map fst txns) rss = [].
+Proof. intros txns d rss d' Hl H. eapply batch_selections_ok; [|exact Hl|exact H]. intros _. reflexivity. Qed.
+Print Assumptions C08_batch_selections_legal.
